@@ -107,3 +107,9 @@ Lemma shared_handler_field_refuted :
   observations (ctx_run_shared ths_shared_demo [0; 0; 1; 0]) = [[(3, 3, 0)%N; (1, 1, 1)%N]; []]
   /\ observations (ctx_run false ths_shared_demo [0; 0; 1; 0]) = [[(3, 3, 0)%N; (3, 3, 0)%N]; []].
 Proof. split; vm_compute; reflexivity. Qed.
+
+(* two ConfigGet commands (client 1 and client 2, two mappings each) interleaved on the shared buffer: client 1's answer
+   contains client 2's items *)
+Lemma shared_answer_buffer_refuted :
+  map b_answer (snd (buf_run true [(1%N, 2); (2%N, 2)] [0; 0; 1; 1; 0; 1; 0; 1])) = [Some [2; 1; 2]%N; Some [2; 1; 2]%N].
+Proof. vm_compute. reflexivity. Qed.
